@@ -398,3 +398,11 @@ Proof.
   split; [exact Hs|]. split; [now apply spaced_window|].
   eapply Forall_impl; [|apply run_out_small]. cbn. tauto.
 Qed.
+
+Lemma prune_thm W mk selfs evs nd o :
+  In nd (nodes (fst (run W mk (init_net selfs) evs))) -> In o (heap (n_svc nd)) ->
+  N.of_nat (length (g_known (g_prune mk (o_grp o)))) = N.min mk (N.of_nat (length (g_known (o_grp o)))).
+Proof.
+  intros Hin Ho. destruct (partition_thm W mk selfs evs nd Hin) as [Hp _].
+  apply g_prune_bound. apply (Hp _ Ho).
+Qed.
